@@ -6,15 +6,23 @@ package main
 
 import (
 	"context"
+	gosql "database/sql"
 	"fmt"
 	"io"
+	"log"
+	"net"
 	"sort"
 	"strconv"
 	"strings"
+	"sync"
 	"sync/atomic"
 	"time"
 
+	gomysql "github.com/go-sql-driver/mysql"
 	"github.com/sirupsen/logrus"
+
+	"github.com/dolthub/go-mysql-server/memory"
+	"github.com/dolthub/go-mysql-server/server"
 
 	sqle "github.com/dolthub/go-mysql-server"
 	"github.com/dolthub/go-mysql-server/sql"
@@ -149,6 +157,10 @@ type procObs struct {
 func run(c *lib.Ctx, cs caseT) {
 	if cs.Stream == "engine-kill" {
 		runEngineKill(c, cs)
+		return
+	}
+	if cs.Stream == "server-kill" {
+		runServerKill(c, cs)
 		return
 	}
 	base := [2]uint64{statusVar("Threads_connected"), statusVar("Threads_running")} // the registry is global
@@ -541,6 +553,215 @@ func runEngineKill(c *lib.Ctx, cs caseT) {
 	}
 }
 
+// ---------------- server-level slice: SHOW PROCESSLIST / KILL over the wire (server.NewServer + go-sql-driver) ----------------
+var (
+	srvOnce sync.Once
+	srvAddr string
+)
+
+func startServer() {
+	engSetup()
+	srvOnce.Do(func() {
+		gomysql.SetLogger(log.New(io.Discard, "", 0)) // the client logs "unexpected EOF" when the server closes a killed connection
+		ln, err := net.Listen("tcp", "127.0.0.1:0")
+		if err != nil {
+			panic("driver: " + err.Error())
+		}
+		srvAddr = ln.Addr().String()
+		srv, err := server.NewServer(server.Config{Protocol: "tcp", Address: srvAddr, Listener: ln}, engE.Engine, sql.NewContext, memory.NewSessionBuilder(engE.Pro), nil)
+		if err != nil {
+			panic("driver: " + err.Error())
+		}
+		go func() { _ = srv.Start() }()
+	})
+}
+
+type wire struct {
+	db   *gosql.DB
+	conn *gosql.Conn
+	id   uint32
+}
+
+func dial() *wire {
+	db, err := gosql.Open("mysql", fmt.Sprintf("root:@tcp(%s)/db", srvAddr))
+	if err != nil {
+		panic("driver: " + err.Error())
+	}
+	db.SetMaxOpenConns(1)
+	var conn *gosql.Conn
+	for i := 0; ; i++ {
+		if conn, err = db.Conn(context.Background()); err == nil {
+			break
+		}
+		if i > 100 {
+			panic("driver: server does not answer: " + err.Error())
+		}
+		time.Sleep(20 * time.Millisecond)
+	}
+	w := &wire{db: db, conn: conn}
+	if err := conn.QueryRowContext(context.Background(), "SELECT CONNECTION_ID()").Scan(&w.id); err != nil {
+		panic("driver: " + err.Error())
+	}
+	return w
+}
+
+func (w *wire) close() { w.conn.Close(); w.db.Close() }
+
+// processlist returns SHOW PROCESSLIST as id -> (Command, Info).
+func (w *wire) processlist() (map[uint32][2]string, error) {
+	rows, err := w.conn.QueryContext(context.Background(), "SHOW PROCESSLIST")
+	if err != nil {
+		return nil, err
+	}
+	defer rows.Close()
+	cols, _ := rows.Columns()
+	out := map[uint32][2]string{}
+	for rows.Next() {
+		vals := make([]gosql.NullString, len(cols))
+		ptrs := make([]interface{}, len(cols))
+		for i := range vals {
+			ptrs[i] = &vals[i]
+		}
+		if err := rows.Scan(ptrs...); err != nil {
+			return nil, err
+		}
+		var id uint32
+		var cmd, info string
+		for i, cn := range cols {
+			switch strings.ToLower(cn) {
+			case "id":
+				fmt.Sscan(vals[i].String, &id)
+			case "command":
+				cmd = vals[i].String
+			case "info":
+				info = vals[i].String
+			}
+		}
+		out[id] = [2]string{cmd, info}
+	}
+	return out, rows.Err()
+}
+
+func (w *wire) status(name string) string {
+	var n, v string
+	if err := w.conn.QueryRowContext(context.Background(), "SHOW STATUS LIKE '"+name+"'").Scan(&n, &v); err != nil {
+		return "ERR:" + err.Error()
+	}
+	return v
+}
+
+func runServerKill(c *lib.Ctx, cs caseT) {
+	startServer()
+	c.Count("stream_server-kill")
+	id := c.CaseNoModel(cs, "server-kill/"+cs.Slow+"/"+cs.KillStmt)
+	c.PredChecked()
+	fail := func(sig, what string) { c.PredFail(id, "server-kill/"+sig, what, cs) }
+	c0, r0 := statusVar("Threads_connected"), statusVar("Threads_running")
+	w1, w2 := dial(), dial()
+	defer func() {
+		// the server handles the disconnect asynchronously: wait until the registry is back to the start values
+		w2.close()
+		for t0 := time.Now(); time.Since(t0) < 3*time.Second && statusVar("Threads_connected") != c0; time.Sleep(2 * time.Millisecond) {
+		}
+		if got := statusVar("Threads_connected"); got != c0 {
+			fail("Threads_connected-after-disconnect", fmt.Sprintf("Threads_connected = %d after both clients disconnected, start value %d", got, c0))
+		}
+	}()
+	if got := w2.status("Threads_connected"); got != fmt.Sprint(c0+2) {
+		fail("Threads_connected-with-two-clients", fmt.Sprintf("SHOW STATUS LIKE 'Threads_connected' = %s with two client connections (start value %d)", got, c0))
+	}
+	type res struct {
+		err error
+		dur time.Duration
+	}
+	done := make(chan res, 1)
+	go func() {
+		t0 := time.Now()
+		rows, err := w1.conn.QueryContext(context.Background(), cs.Slow)
+		if err == nil {
+			for rows.Next() {
+			}
+			err = rows.Err()
+			rows.Close()
+		}
+		done <- res{err, time.Since(t0)}
+	}()
+	shown := false
+	for t0 := time.Now(); time.Since(t0) < 2*time.Second && !shown; {
+		pl, err := w2.processlist()
+		if err != nil {
+			fail("show-processlist-failed", err.Error())
+			break
+		}
+		if p, ok := pl[w1.id]; ok && p[0] == "Query" && p[1] == cs.Slow {
+			shown = true
+			if q, ok := pl[w2.id]; !ok || q[0] != "Query" || q[1] != "SHOW PROCESSLIST" {
+				fail("own-statement-not-shown", fmt.Sprintf("SHOW PROCESSLIST lists the issuing connection %d as %v", w2.id, q))
+			}
+			if len(pl) != 2 {
+				fail("process-list-is-not-the-set-of-connected-sessions", fmt.Sprintf("two clients are connected, SHOW PROCESSLIST lists %d rows: %v", len(pl), pl))
+			}
+		}
+	}
+	if !shown {
+		fail("running-query-not-shown", fmt.Sprintf("connection %d runs %q but SHOW PROCESSLIST never showed it", w1.id, cs.Slow))
+	}
+	if _, err := w2.conn.ExecContext(context.Background(), fmt.Sprintf("%s %d", cs.KillStmt, w1.id)); err != nil {
+		fail("kill-statement-failed", err.Error())
+	}
+	r := <-done
+	if r.err == nil && r.dur > 1500*time.Millisecond {
+		fail("kill-did-not-cancel-the-running-query", fmt.Sprintf("%q ran to completion (%v) although %s %d was issued", cs.Slow, r.dur, cs.KillStmt, w1.id))
+	}
+	// KILL QUERY: the victim's handler has returned (EndQuery ran) when the client got its answer.  KILL CONNECTION closes
+	// the socket first, the victim's handler unwinds shortly after: allow it a moment.
+	got := w2.status("Threads_running")
+	for t0 := time.Now(); cs.KillStmt != "KILL QUERY" && got != fmt.Sprint(r0+1) && time.Since(t0) < 2*time.Second; time.Sleep(5 * time.Millisecond) {
+		got = w2.status("Threads_running")
+	}
+	if got != fmt.Sprint(r0+1) {
+		fail("Threads_running-after-killed-query", fmt.Sprintf("after %s %d of %q: SHOW STATUS LIKE 'Threads_running' = %s, expected %d (the SHOW statement only)", cs.KillStmt, w1.id, cs.Slow, got, r0+1))
+	}
+	if cs.KillStmt == "KILL QUERY" {
+		var v int
+		if err := w1.conn.QueryRowContext(context.Background(), "SELECT 41 + 1").Scan(&v); err != nil || v != 42 {
+			fail("cancellation-leaked-into-next-query", fmt.Sprintf("next query on the killed connection: %d %v", v, err))
+		}
+		if pl, err := w2.processlist(); err == nil {
+			if p := pl[w1.id]; p[0] == "Query" || p[1] != "" {
+				fail("idle-session-shows-a-query", fmt.Sprintf("connection %d is idle but SHOW PROCESSLIST shows %v", w1.id, p))
+			}
+		}
+		w1.close()
+	} else {
+		// KILL CONNECTION: the server closes the victim's connection
+		var v int
+		err := w1.conn.QueryRowContext(context.Background(), "SELECT 1").Scan(&v)
+		for i := 0; err == nil && i < 50; i++ {
+			time.Sleep(10 * time.Millisecond)
+			err = w1.conn.QueryRowContext(context.Background(), "SELECT 1").Scan(&v)
+		}
+		if err == nil {
+			fail("kill-connection-left-the-connection-open", fmt.Sprintf("connection %d still answers after KILL CONNECTION", w1.id))
+		}
+		w1.close()
+	}
+	// after the victim is gone: one session listed, counters back
+	ok := false
+	var last map[uint32][2]string
+	for t0 := time.Now(); time.Since(t0) < 3*time.Second && !ok; time.Sleep(5 * time.Millisecond) {
+		last, _ = w2.processlist()
+		_, still := last[w1.id]
+		ok = !still && w2.status("Threads_connected") == fmt.Sprint(c0+1)
+	}
+	if !ok {
+		fail("registry-after-disconnect", fmt.Sprintf("3 s after connection %d went away: SHOW PROCESSLIST %v, Threads_connected %s (start value %d, one client left)", w1.id, last, w2.status("Threads_connected"), c0))
+	}
+	if got := w2.status("Threads_running"); got != fmt.Sprint(r0+1) {
+		fail("Threads_running-after-disconnect", fmt.Sprintf("Threads_running = %s, expected %d", got, r0+1))
+	}
+}
+
 // ---------------- generators ----------------
 type gconn struct {
 	phase int
@@ -714,7 +935,10 @@ func main() {
 			caseT{Stream: "engine-kill", Slow: "SELECT SLEEP(2)", KillStmt: "KILL QUERY"},
 			caseT{Stream: "engine-kill", Slow: "SELECT SLEEP(2), 1", KillStmt: "KILL CONNECTION"},
 			caseT{Stream: "engine-kill", Slow: "SELECT COUNT(*) FROM big a, big b, big c WHERE a.i + b.i + c.i < 0", KillStmt: "KILL QUERY"},
-			caseT{Stream: "engine-kill", Slow: "SELECT SLEEP(2) FROM big WHERE i < 2", KillStmt: "KILL QUERY"})
+			caseT{Stream: "engine-kill", Slow: "SELECT SLEEP(2) FROM big WHERE i < 2", KillStmt: "KILL QUERY"},
+			caseT{Stream: "server-kill", Slow: "SELECT SLEEP(2)", KillStmt: "KILL QUERY"},
+			caseT{Stream: "server-kill", Slow: "SELECT SLEEP(2), 7", KillStmt: "KILL CONNECTION"},
+			caseT{Stream: "server-kill", Slow: "SELECT COUNT(*) FROM big a, big b, big c WHERE a.i + b.i + c.i < 0", KillStmt: "KILL QUERY"})
 		for _, cs := range corpus {
 			run(c, cs)
 		}
